@@ -356,6 +356,12 @@ def main(prop):
                                                           "expect": "accepted with empty rest", "detail": bad, "property": "C01"}, "; ".join(bad))
         except (nomsem.Unsupported, KeyError, IndexError) as e:
             rep.inconclusive.append("capture obligations: %s" % e)
+        # element content -> information items (text runs kept as they are, white space included)
+        try:
+            import c01elem
+            c01elem.obligations(rep, rp, args.tier, args.jobs)
+        except Exception as e:  # noqa
+            rep.inconclusive.append("element content: %s: %s" % (type(e).__name__, e))
         # which declaration an entity reference denotes (first declaration binds; predefined entities)
         try:
             import c01ent
@@ -441,6 +447,9 @@ def replay_case(args, rep):
     if case.get("op") == "attr_value":
         import c01ent
         return common.replay_generic(args, c01ent.judge)
+    if case.get("op") == "query":
+        import c01elem
+        return common.replay_generic(args, c01elem.judge)
     rp = replay.Replay()
     rr = rp.run({"op": case["op"], "input": case["input"]})
     w = case["input"]
